@@ -17,6 +17,7 @@ CONSTANTS
   HasFallback = TRUE
   AllowClose = TRUE
   AllowDo = TRUE
+  AllowIndicate = TRUE
   IdleCollects = 0
   RtoChanges = 0
   DeadlineTicks = FALSE
@@ -34,6 +35,7 @@ INVARIANT GoroutinesGone
 INVARIANT OnSchedule
 INVARIANT StartErrNoCall
 INVARIANT DoNotStuck
+INVARIANT IndicationsAreNotTransactions
 PROPERTY DoWaits
 PROPERTY QuietAfterEnd
 PROPERTY SilentAfterClose
